@@ -287,6 +287,24 @@ def rule_cl_exit(cx, rep, port='py'):
     # evaluated on abstract exceptions of the three library classes, of another class and of SyntaxError
     from .. import absexec as AX_
     classes_ = {'RbqlRuntimeError': 'query execution', 'RbqlParsingError': 'query parsing', 'RbqlIOHandlingError': 'IO handling', 'ValueError': 'unexpected', 'SyntaxError': 'syntax error'}
+    # every error class of the library that derives from one of the three belongs to its base's category
+    bases_ = {}
+    for mname_, mod_ in p.modules.items():
+        for st_ in mod_.body:
+            if isinstance(st_, ast.ClassDef):
+                bases_[st_.name] = [(dotted(b_) or '').split('.')[-1] for b_ in st_.bases]
+
+    def root_(cn, depth=0):
+        if cn in ('RbqlRuntimeError', 'RbqlParsingError', 'RbqlIOHandlingError'):
+            return cn
+        for b_ in bases_.get(cn, []) if depth < 5 else []:
+            r_ = root_(b_, depth + 1)
+            if r_:
+                return r_
+        return None
+    derived_ = {cn: root_(cn) for cn in bases_ if cn not in classes_ and root_(cn)}
+    for cn, rt in derived_.items():
+        classes_[cn] = classes_[rt]
     got_m, gave_up_ = {}, None
     for cname_ in classes_:
         exc = AX_.Abs('ExcObj', cls=cname_)
@@ -297,7 +315,7 @@ def rule_cl_exit(cx, rep, port='py'):
                 names_ = [(c_[1].split('.')[-1] if isinstance(c_, tuple) and len(c_) == 2 else None) for c_ in cl_]
                 if None in names_:
                     raise Undecided('isinstance against {!r}'.format(args[1]), node)
-                return cname_ in names_ or ('Exception' in names_) or ('BaseException' in names_)
+                return cname_ in names_ or derived_.get(cname_) in names_ or ('Exception' in names_) or ('BaseException' in names_)
             if fname == 'str' and len(args) == 1 and args[0] is exc:
                 return 'the message'
             if fname == 'sys.exc_info':
@@ -325,7 +343,7 @@ def rule_cl_exit(cx, rep, port='py'):
             gave_up_ = (cname_, str(e_))
             if cname_ != 'SyntaxError':
                 break
-    lib_ = {k_: v_ for k_, v_ in classes_.items() if k_.startswith('Rbql')}
+    lib_ = {k_: v_ for k_, v_ in classes_.items() if k_.startswith('Rbql') or k_ in derived_}
     if all(k_ in got_m for k_ in lib_):
         wrong_ = {k_: got_m[k_] for k_ in lib_ if got_m[k_] != lib_[k_]}
         rep.decide(not wrong_, 'error type map', ei, 'runtime -> query execution, parsing -> query parsing, IO -> IO handling (exception_to_error_info evaluated on abstract exceptions)', 'error class -> type map gives {}'.format(wrong_))
